@@ -1,6 +1,7 @@
 import PqV.Drv.Kern
 import PqV.Drv.Filter
 import PqV.Drv.Footer
+import PqV.Drv.Fs
 /-
   `pqv` — line-protocol driver over the executable definitions of PqV (Spec, Impl, Gen).
   One request per line on stdin, one reply per line on stdout.  Pure per line.
@@ -17,6 +18,7 @@ def handleLine (line : String) : String :=
     | "spec" => handleSpec op a
     | "filter" => handleFilter op a
     | "footer" => handleFooter op a
+    | "fs" => handleFs op a
     | _ => s!"err unknown-stream {stream}"
   | _ => "err bad-request"
 
